@@ -6,8 +6,14 @@ from common import *
 
 
 class T(tuple):
-    """A symbolic application term ('app', opname, args, kwargs) returned by recording operations."""
-    pass
+    """A symbolic application term ('app', opname, args, kwargs) returned by recording operations.
+    Products and sums of terms (functools.reduce(mul | add, ...)) stay symbolic."""
+
+    def __mul__(self, other):
+        return T(('app', 'mul', (self, other), ()))
+
+    def __add__(self, other):
+        return T(('app', 'add', (self, other), ()))
 
 
 RECORDERS = {}
@@ -84,6 +90,14 @@ class RecDist:
         rec.log.append(self.name)
         kw = _canon_kwargs(rec, self.name, dict(batch_size=int(size[0]), random_state=random_state))
         return T(('app', self.name, tuple(params), kw))
+
+    def pdf(self, x, *params):
+        RECORDERS[self.rid].log.append('pdf:' + self.name)
+        return T(('app', 'pdf:' + self.name, (x,) + tuple(params), ()))
+
+    def logpdf(self, x, *params):
+        RECORDERS[self.rid].log.append('logpdf:' + self.name)
+        return T(('app', 'logpdf:' + self.name, (x,) + tuple(params), ()))
 
 
 NAME_POOL = ['a', 'B', 'c1', 'Z', 'k_2', 'm', 'X9', 'q', 'th', 'S1', 'S2', 'd', 'e', 'Yy', 'w', 'n0', 'A', 'zz', 'p_', 'u']
@@ -221,6 +235,10 @@ def opid_of_state(n, st):
     kw = getattr(op, 'keywords', None)
     if kw and isinstance(kw.get('distribution'), RecDist):
         return kw['distribution'].name
+    if isinstance(getattr(op, '__self__', None), RecDist):
+        return '%s:%s' % (op.__name__, op.__self__.name)
+    if type(op).__name__ == 'Compose':
+        return 'reduce'
     nm = getattr(op, '__name__', '')
     if nm.startswith('rec_'):
         return nm[4:]
